@@ -22,7 +22,9 @@ from .common import plist
 THEOREMS = [
     'Pyiga.Props.C14.glue_spec',
     'Pyiga.Props.C14.glue_numbering',
+    'Pyiga.Props.C14.glue_numdofs_eq_classes',
     'Pyiga.Props.C14.glue_spec_calls',
+    'Pyiga.Props.C14.glue_spec_boundaries',
     'Pyiga.Props.C14.glue_spec_partial',
     'Pyiga.Props.C14.asCoded_eq_repaired_of_noMeet',
     'Pyiga.Props.C14.glue_spec_asCoded_false',
@@ -34,7 +36,7 @@ THEOREMS = [
     'Pyiga.Props.C14.p2gIdx_ok',
     'Pyiga.Props.C14.globOf_inv',
 ]
-MODULES = ['Pyiga.Model.Index', 'Pyiga.Model.Slice', 'Pyiga.Model.Multipatch', 'Pyiga.Proofs.Multipatch', 'Pyiga.Proofs.MultipatchMat', 'Pyiga.Props.C14']
+MODULES = ['Pyiga.Model.Index', 'Pyiga.Model.Slice', 'Pyiga.Model.Multipatch', 'Pyiga.Proofs.Multipatch', 'Pyiga.Proofs.MultipatchMat', 'Pyiga.Proofs.MultipatchSlice', 'Pyiga.Props.C14']
 
 KEY_MERGE = 'join meets two existing classes'
 KEY_UNSHARED = 'patch without shared dofs'
